@@ -6,7 +6,11 @@ package c14
 //   - PATCH changes only the properties that are present;
 //   - a task created from / assigned to a template carries the template's script;
 //   - an accepted template update rewrites the script of every task associated with it;
-//   - deleting a template orphans its tasks (they keep script and template id).
+//   - deleting a template orphans its tasks (they keep script and template id);
+//   - data written to the server (POST /kapacitor/v1/write) is not a definition request: it
+//     never changes the catalogue; an execution it brings to an end with a run-time error
+//     leaves the task enabled, not executing, with the error recorded (client/API.md: "error:
+//     Any error encountered when executing the task") until the task is started again.
 
 import (
 	"fmt"
@@ -28,7 +32,7 @@ type Var struct {
 }
 
 type Op struct {
-	K      string         `json:"k"` // create update enable disable delete tcreate tupdate tdelete restart
+	K      string         `json:"k"` // create update enable disable delete tcreate tupdate tdelete restart feed
 	ID     string         `json:"id,omitempty"`
 	NewID  string         `json:"new_id,omitempty"`
 	Tmpl   string         `json:"tmpl,omitempty"`
@@ -36,9 +40,15 @@ type Op struct {
 	DBRPs  []DBRP         `json:"dbrps,omitempty"`
 	Vars   map[string]Var `json:"vars,omitempty"`
 	Status string         `json:"status,omitempty"` // "" | enabled | disabled
+	// feed: DBRPs[0] is the db.rp the points are written to; N points of measurement 'boom'
+	// with one and the same time, followed by one later point
+	N int `json:"n,omitempty"`
 }
 
 func (o Op) String() string {
+	if o.K == "feed" && len(o.DBRPs) == 1 {
+		return fmt.Sprintf("feed %s.%s: %d points of measurement 'boom' with the same time, then a later one", o.DBRPs[0].DB, o.DBRPs[0].RP, o.N)
+	}
 	s := o.K
 	if o.ID != "" {
 		s += " " + o.ID
@@ -79,6 +89,12 @@ type mTask struct {
 	// Enabled.
 	RunScript string
 	RunDBRPs  []DBRP
+	// Died: the execution started last has ended with a run-time error (a feed it could not
+	// process): enabled, not executing, error recorded - until the task is started again.
+	Died bool
+	// Patched: an accepted request changed the definition since the task was last started
+	// (only for labels and the non-trivial rule)
+	Patched bool
 	// LooseDBRPs: the dbrps of the task are not pinned down by the documentation (a template
 	// update moved the task from a script with a dbrp statement to one without).
 	LooseDBRPs bool
@@ -234,9 +250,18 @@ func (m *model) apply(op Op) (post *model, ok bool) {
 		// a task is (re)started when it becomes enabled and when it is renamed while enabled
 		if t.Enabled && (!wasEnabled || oldID != t.ID) {
 			t.started()
+		} else if t.Enabled && (t.Script != t.RunScript || !sameDBRPs(t.DBRPs, t.RunDBRPs) || len(op.Vars) > 0) {
+			t.Patched = true
 		}
 	case "delete":
 		delete(p.tasks, op.ID)
+	case "feed":
+		if len(op.DBRPs) != 1 || op.N < 1 {
+			return p, false
+		}
+		for _, id := range p.hits(op) {
+			p.tasks[id].Died = true
+		}
 	case "tcreate":
 		if _, dup := p.tmpls[op.ID]; dup || op.ID == "" || op.Script == "" {
 			return p, false
@@ -297,6 +322,51 @@ func (m *model) apply(op Op) (post *model, ok bool) {
 
 func (t *mTask) started() {
 	t.RunScript, t.RunDBRPs = t.Script, append([]DBRP(nil), t.DBRPs...)
+	t.Died, t.Patched = false, false
+}
+
+// ---------------------------------------------------------------- run-time faults
+
+// A feed is fatal for an execution of a fragile script: combine() is given more points with
+// one time than .max(1) allows combinations for (3 points = 3 pairs), which the node answers
+// with an error as soon as a later point arrives (combine.go: "refusing to perform
+// combination as total combinations 3 exceeds max combinations 1"); a node error ends the
+// execution. 1 or 2 points (0 or 1 pair) are processed.
+const fragileMark = "measurement('boom')|combine(lambda: TRUE, lambda: TRUE)"
+
+func isFragile(script string) bool { return strings.Contains(script, fragileMark) }
+
+func (o Op) fatal() bool { return o.K == "feed" && o.N >= 3 }
+
+// running: the model expects the task to be executing.
+func (t *mTask) running() bool {
+	return t.Enabled && !t.Died && startClass(t.RunScript, t.RunDBRPs) == clsStarts
+}
+
+// hitBy: the feed reaches the running execution of the task and ends it. What counts is the
+// definition the execution was started with (client/API.md: "When patching a task, no changes
+// are made to the running task"), not the stored one.
+func (t *mTask) hitBy(op Op) bool {
+	if !op.fatal() || len(op.DBRPs) != 1 || !t.running() || !isFragile(t.RunScript) {
+		return false
+	}
+	for _, d := range t.RunDBRPs {
+		if d == op.DBRPs[0] {
+			return true
+		}
+	}
+	return false
+}
+
+// hits lists the tasks whose execution the feed ends (sorted).
+func (m *model) hits(op Op) []string {
+	var out []string
+	for _, id := range sortedKeys(m.tasks) {
+		if m.tasks[id].hitBy(op) {
+			out = append(out, id)
+		}
+	}
+	return out
 }
 
 // restarted: a server start starts every enabled task with its current definition.
@@ -530,6 +600,15 @@ func (w *mTask) checkExecuting(o *observed) *diff {
 	if !w.Enabled {
 		if g.Executing {
 			return &diff{"executing", id, "task is disabled but shown executing"}
+		}
+		return nil
+	}
+	if w.Died {
+		if g.Executing {
+			return &diff{"executing", id, fmt.Sprintf("the execution of the task (started with script %s dbrps %v) has ended with a run-time error and the task was not started again, but it is shown executing; error=%q", scriptName(w.RunScript), w.RunDBRPs, g.Error)}
+		}
+		if g.Error == "" {
+			return &diff{"run-error-lost", id, "the execution of the task has ended with a run-time error: the task is enabled and not executing but no error is recorded"}
 		}
 		return nil
 	}
